@@ -17,6 +17,29 @@ Conventions of the translation (see tools/rust2lean.py):
 namespace B.Gen.Rust
 open Std
 
+/-- `Outcome.bind`, inlined at every use: the continuation of a `do` block then is a local join point instead of
+    a heap closure. (A closure keeps a second reference to every mutable array / hash map of the enclosing loop,
+    which makes each update copy the container: measured quadratic behaviour on 10^4-node operands.)
+    Compiled code only — `@[csimp]` swaps it in, all theorems are about `Outcome.bind`. -/
+@[always_inline, inline] def bindFast {α β} (x : Outcome α) (f : α → Outcome β) : Outcome β :=
+  match x with
+  | .ok a => f a
+  | .err m => .err m
+  | .panic m => .panic m
+
+/-- The `Monad Outcome` instance used by the generated code: the same operations as the instance of
+    `Model/Outcome.lean` (`monadOutcomeInline_eq` below, by `rfl`), but inlined by the compiler. -/
+@[always_inline, reducible] def monadOutcomeInline : Monad Outcome where
+  pure := Outcome.ok
+  bind := bindFast
+
+theorem bindFast_eq {α β} (x : Outcome α) (f : α → Outcome β) : bindFast x f = Outcome.bind x f := by
+  cases x <;> rfl
+
+theorem monadOutcomeInline_bind {α β} (x : Outcome α) (f : α → Outcome β) :
+    @bind Outcome monadOutcomeInline.toBind α β x f = @bind Outcome inferInstance α β x f := by
+  cases x <;> rfl
+
 /-- `v[i]` on a `Vec`/slice: out of bounds is a panic -/
 @[inline] def idx {α} (a : Array α) (i : Nat) : Outcome α :=
   if h : i < a.size then .ok a[i] else .panic "index out of bounds"
